@@ -1,12 +1,12 @@
 SPECIFICATION Spec
 CONSTANTS
   Dirs <- MCDirs
-  TypeEncs <- FullTypeEncs
-  Maxes <- FullMaxes
-  Methods <- FullMethods
+  TypeEncs <- QuickTypeEncs
+  Maxes <- QuickMaxes
+  Methods <- QuickMethods
   Shardings <- FullShardings
   Codes <- QuickCodes
-  CfgSpace <- MidCfg
+  CfgSpace <- QuickCfg
   MaxLen = 1000
   AioForwardsMethod = TRUE
   CopyInfoLayout = "byInfo"
